@@ -633,6 +633,9 @@ func (g *TyGen) EqEnv() ([]*ast.Decl, []string) {
 	if g.Chance(25, "assocfamily") {
 		all = append(all, g.assocFamily(&log)...)
 	}
+	if !g.NoShifts && g.Chance(30, "shiftfamily") {
+		all = append(all, g.shiftFamily(&log)...)
+	}
 	// a definition body must not have become a bare name cycle; aliases only point to existing names
 	g.Annotate(all)
 	return all, log
@@ -686,5 +689,53 @@ func (g *TyGen) assocFamily(log *[]string) []*ast.Decl {
 	out = append(out, add("AsT", ast.Plus(m, ast.Br{L: "a", T: left.Clone()}, ast.Br{L: "b", T: right.Clone()})))
 	out = append(out, add("AsV", ast.Plus(m, ast.Br{L: "a", T: left.Clone()}, ast.Br{L: "b", T: left.Clone()})))
 	*log = append(*log, "association family AsL/AsR/AsS/AsT/AsV added")
+	return out
+}
+
+
+// shiftFamily adds definitions whose root is a shift and that differ only in one of the two
+// modes of that shift (same continuation where the modes allow it), and choices over them.
+func (g *TyGen) shiftFamily(log *[]string) []*ast.Decl {
+	up := g.Bool("upfamily")
+	var out []*ast.Decl
+	add := func(name string, t *ast.Ty) {
+		g.Names = append(g.Names, name)
+		g.Modes[name] = t.M
+		out = append(out, &ast.Decl{Kind: ast.DType, Name: name, Ty: t})
+	}
+	mk := func(from, to ast.Mode) *ast.Ty {
+		c := ast.One(from)
+		if g.Bool("contprod") {
+			c = ast.Tensor(from, ast.One(from), ast.One(from))
+		}
+		var t *ast.Ty
+		if up {
+			t = ast.Up(to, c)
+		} else {
+			t = ast.Down(to, c)
+		}
+		t.FromW, t.ToW = g.ModeWord(from), g.ModeWord(to)
+		return t
+	}
+	n := 0
+	for from := ast.Rep; from <= ast.Lin; from++ {
+		for to := ast.Rep; to <= ast.Lin; to++ {
+			legal := ast.Geq(from, to)
+			if up {
+				legal = ast.Geq(to, from)
+			}
+			if legal && g.Chance(60, "keep") {
+				add(fmt.Sprintf("Sh%d", n), mk(from, to))
+				n++
+			}
+		}
+	}
+	// the same shifts once more under other names (equal pairs)
+	m := len(out)
+	for i := 0; i < m && i < 3; i++ {
+		c := out[i].Ty.Clone()
+		add(fmt.Sprintf("Sh%dc", i), c)
+	}
+	*log = append(*log, fmt.Sprintf("shift family with %d root shifts", len(out)))
 	return out
 }
